@@ -22,6 +22,8 @@ EXPLANATION = (
     " read like any other (C04's source-name table)."
     " Added in rounds 8 and 9: A data character compared with a literal outside CR / LF is a choice (both answers"
     " explored)."
+    " Added in round 10: (O13.4) raise helper(...) counts as a located DataFormatError when every return of"
+    " the helper is DataFormatError(message, <its location parameter>)."
 )
 ASSUMPTIONS = ["the text stream's read(n) returns up to n characters and '' only at the end of input"]
 
